@@ -261,18 +261,22 @@ def _run(ctx, scratch):
         if any(s["a"] == "Commit" and s["post"]["cinfo"] != s["off"] or
                s["a"] == "Commit" and s["off"] < s["post"]["dbo"] and s["post"]["rst"] == "wtc" for s in b):
             return "lowcommit"       # Commit below the stored / applied offset
+        if any(s["a"] == "Crash" for s in b) and any(s["a"] == "Apply" and s["tail"] != "none" for s in b):
+            return "tailcrash"       # payload ending in a partial event / foreign record, then crash + restart
+        if any(s["a"] == "Apply" and s["tail"] != "none" and s["ids"] for s in b):
+            return "tail"            # ... complete events followed by such a tail
         if any(s["a"] == "Crash" for s in b):
             return "crash"
         return "plain"
     groups = {}
     for b in bs:
         groups.setdefault(group_of(b), []).append(b)
-    n1 = 4000 if th else 600
+    n1 = 4800 if th else 900
     take = []
-    for k in ("desync", "lowcommit", "crash", "plain"):
-        take += groups.get(k, [])[: n1 // 4]
-    if not groups.get("desync") or not groups.get("lowcommit"):
-        raise Infra("behaviour export lacks Desync / low Commit behaviours: %s" % {k: len(v) for k, v in groups.items()})
+    for k in ("desync", "lowcommit", "tailcrash", "tail", "crash", "plain"):
+        take += groups.get(k, [])[: n1 // 6]
+    if not groups.get("desync") or not groups.get("lowcommit") or not groups.get("tail") or not groups.get("tailcrash"):
+        raise Infra("behaviour export lacks Desync / low Commit / partial-tail behaviours: %s" % {k: len(v) for k, v in groups.items()})
     ctx.require_model_ok(sim, "simulation export")
     per = {}
     for b in sim.behaviours:
